@@ -266,7 +266,7 @@ _EXT_EXC_PARENTS = {
 
 
 class Frame:
-    __slots__ = ("fn", "self_cls", "no", "nonlocals")
+    __slots__ = ("fn", "self_cls", "no", "nonlocals", "cellvars")
 
     def __init__(self, fn: FuncInfo, self_cls: Optional[ClassInfo], no: int) -> None:
         self.fn = fn
@@ -276,6 +276,15 @@ class Frame:
         for n in walk_shallow(fn.node):
             if isinstance(n, (ast.Nonlocal, ast.Global)):
                 self.nonlocals.update(n.names)
+        # names of this function that a nested closure rebinds through `nonlocal`: their value
+        # at a read is whatever the closure last stored -> treated as an opaque cell
+        self.cellvars: Set[str] = set()
+        for n in ast.walk(fn.node):
+            if n is not fn.node and isinstance(n, (ast.FunctionDef, ast.AsyncFunctionDef)):
+                for m in walk_shallow(n):
+                    if isinstance(m, ast.Nonlocal):
+                        self.cellvars.update(m.names)
+        self.cellvars -= self.nonlocals
 
 
 class Client:
@@ -1047,6 +1056,8 @@ class Interp:
     def lookup(self, name: str, st: State) -> Value:
         fr = self.frame
         k = self._name_key(name)
+        if name in fr.cellvars and any(isinstance(v, tuple) and v and v[0] == "closure" for kk, v in st.env.items() if isinstance(kk, tuple) and kk[0] == "L" and kk[1] == fr.no):
+            return ("cell", name)  # a closure that may rebind it already exists
         if k in st.env:
             return st.env[k]
         if name in fr.nonlocals:
